@@ -145,8 +145,12 @@ pub struct CCfg {
     pub alias_builder: bool,
     /// configure things twice, a decoy value first and the real one last (the last configuration must win):
     /// bit 0: every Metadata setter; bit 1: with_metadata(decoy) before with_metadata(real); bit 2: language / creation time
-    /// re-set through the builder after with_metadata carried decoys; bit 3: video(), audio(), with_fast_start() twice
+    /// re-set through the builder after with_metadata carried decoys; bit 3: video(), audio(), with_fast_start() twice;
+    /// bits 4..6: order of the Metadata with_* chain (six permutations of title / creation time / language)
     pub reconfig: u8,
+    /// 1..=7: every frame is handed to the muxer as a sub-slice that starts at that offset inside a larger buffer (same bytes,
+    /// another memory alignment); 0: the frame's own Vec
+    pub misalign: u8,
 }
 
 impl CCfg {
@@ -167,6 +171,7 @@ impl CCfg {
             empty_metadata: false,
             alias_builder: false,
             reconfig: 0,
+            misalign: 0,
         }
     }
     pub fn has_audio(&self) -> bool {
@@ -441,26 +446,38 @@ pub fn build_muxer<W: Write>(w: W, cfg: &CCfg) -> Result<Muxer<W>, MuxerError> {
         }
         let late = rc & 4 != 0; // language / creation time arrive through the builder after with_metadata carried decoys
         let mut m = Metadata::new();
-        if let Some(t) = &cfg.title {
-            if rc & 1 != 0 {
-                m = m.with_title(format!("{} (decoy)", t));
-            }
-            m = m.with_title(t.clone());
-        }
-        if let Some(t) = cfg.ctime {
-            if rc & 1 != 0 || late {
-                m = m.with_creation_time(decoy_time(t));
-            }
-            if !late {
-                m = m.with_creation_time(t);
-            }
-        }
-        if let Some(l) = &cfg.lang {
-            if rc & 1 != 0 || late {
-                m = m.with_language(decoy_lang);
-            }
-            if !late {
-                m = m.with_language(l.clone());
+        // the with_* chain in one of its six orders (bits 4..6 of `reconfig`): every setter must leave the other fields alone
+        let perm: [u8; 3] = [[0, 1, 2], [0, 2, 1], [1, 0, 2], [1, 2, 0], [2, 0, 1], [2, 1, 0]][((rc >> 4) % 6) as usize];
+        for which in perm {
+            match which {
+                0 => {
+                    if let Some(t) = &cfg.title {
+                        if rc & 1 != 0 {
+                            m = m.with_title(format!("{} (decoy)", t));
+                        }
+                        m = m.with_title(t.clone());
+                    }
+                }
+                1 => {
+                    if let Some(t) = cfg.ctime {
+                        if rc & 1 != 0 || late {
+                            m = m.with_creation_time(decoy_time(t));
+                        }
+                        if !late {
+                            m = m.with_creation_time(t);
+                        }
+                    }
+                }
+                _ => {
+                    if let Some(l) = &cfg.lang {
+                        if rc & 1 != 0 || late {
+                            m = m.with_language(decoy_lang);
+                        }
+                        if !late {
+                            m = m.with_language(l.clone());
+                        }
+                    }
+                }
             }
         }
         b = b.with_metadata(m);
@@ -518,6 +535,24 @@ pub fn run_history(cfg: &CCfg, ops: &[COp]) -> Run {
 
 /// Generic executor: `snapshot` extracts the sink state at the end. `set_call` is invoked through the RecSink clone by
 /// the caller if needed (here: handled by wrapping in CallTagged).
+/// Presents a frame at another memory alignment (see `CCfg::misalign`).
+struct Misaligner {
+    k: usize,
+    buf: Vec<u8>,
+}
+impl Misaligner {
+    fn get<'a>(&'a mut self, data: &'a [u8]) -> &'a [u8] {
+        if self.k == 0 {
+            return data;
+        }
+        self.buf.clear();
+        // the allocator hands out blocks aligned to at least 8 bytes: the sub-slice starts at address = k (mod 8)
+        self.buf.resize(self.k, 0xa5);
+        self.buf.extend_from_slice(data);
+        &self.buf[self.k..]
+    }
+}
+
 pub fn run_history_on<W: Write + CallTag>(
     cfg: &CCfg,
     ops: &[COp],
@@ -542,6 +577,7 @@ pub fn run_history_on<W: Write + CallTag>(
             (CallResult::Panic(p), None)
         }
     };
+    let mut al = Misaligner { k: (cfg.misalign % 8) as usize, buf: Vec::new() };
     for (i, op) in ops.iter().enumerate() {
         if muxer.is_none() || panic.is_some() {
             results.push(CallResult::Skipped);
@@ -551,23 +587,23 @@ pub fn run_history_on<W: Write + CallTag>(
         let r = match op {
             COp::Video { pts, data, key } => {
                 let m = muxer.as_mut().unwrap();
-                to_result(guarded(|| m.write_video(*pts, data, *key)), cfg, |_| CallResult::Ok)
+                to_result(guarded(|| m.write_video(*pts, al.get(data), *key)), cfg, |_| CallResult::Ok)
             }
             COp::VideoDts { pts, dts, data, key } => {
                 let m = muxer.as_mut().unwrap();
-                to_result(guarded(|| m.write_video_with_dts(*pts, *dts, data, *key)), cfg, |_| CallResult::Ok)
+                to_result(guarded(|| m.write_video_with_dts(*pts, *dts, al.get(data), *key)), cfg, |_| CallResult::Ok)
             }
             COp::Audio { pts, data } => {
                 let m = muxer.as_mut().unwrap();
-                to_result(guarded(|| m.write_audio(*pts, data)), cfg, |_| CallResult::Ok)
+                to_result(guarded(|| m.write_audio(*pts, al.get(data))), cfg, |_| CallResult::Ok)
             }
             COp::EncVideo { data, ms } => {
                 let m = muxer.as_mut().unwrap();
-                to_result(guarded(|| m.encode_video(data, *ms)), cfg, |_| CallResult::Ok)
+                to_result(guarded(|| m.encode_video(al.get(data), *ms)), cfg, |_| CallResult::Ok)
             }
             COp::EncAudio { data, samples } => {
                 let m = muxer.as_mut().unwrap();
-                to_result(guarded(|| m.encode_audio(data, *samples)), cfg, |_| CallResult::Ok)
+                to_result(guarded(|| m.encode_audio(al.get(data), *samples)), cfg, |_| CallResult::Ok)
             }
             COp::Finish(k) => match k {
                 FinishKind::InPlace => {
